@@ -70,7 +70,7 @@ def run_demo(wt, demo_src, orig_root):
     return rc, out[-600:]
 
 
-def do_import(src, pid):
+def do_import(src, pid, offset=0):
     src = Path(src)
     orig_root = src.parent
     results = []
@@ -80,7 +80,7 @@ def do_import(src, pid):
         note = src / ('note%d.txt' % n)
         if not patch.exists() or not demo.exists():
             continue
-        name = '%s-%d' % (pid, n)
+        name = '%s-%d' % (pid, n + offset)
         log = {}
         with Worktree() as wt:
             rc0, out0 = run_demo(wt, demo, orig_root)
@@ -155,12 +155,13 @@ def main():
     a = sub.add_parser('import')
     a.add_argument('src')
     a.add_argument('pid')
+    a.add_argument('--offset', type=int, default=0)
     b = sub.add_parser('run')
     b.add_argument('names', nargs='*')
     b.add_argument('--tier', default='quick')
     args = ap.parse_args()
     if args.cmd == 'import':
-        names = do_import(args.src, args.pid.upper())
+        names = do_import(args.src, args.pid.upper(), args.offset)
         if names:
             do_run(names, 'quick')
     elif args.cmd == 'run':
